@@ -1,6 +1,6 @@
 (* The binary32 instance of the C04 results (Proofs/RcbBalance.v). *)
 From Coupe Require Import Lib.Prelude Lib.SFloat Model.Rcb Proofs.SFOrder Proofs.RcbProofs
-  Proofs.RcbInst Proofs.RcbBalance Proofs.F32Flocq.
+  Proofs.RcbInst Proofs.RcbBalance Proofs.F32Flocq Proofs.RcbBox.
 From Coq Require Import Floats.SpecFloat Permutation.
 Open Scope Z_scope.
 
@@ -27,12 +27,25 @@ Definition MidSpec (m : spec_float -> spec_float -> spec_float) : Prop :=
 Theorem mid_spec32 : MidSpec (f32_mid true).
 Proof. split; [exact mid_fin32|exact mid_exhausted32]. Qed.
 
-Definition head_variant : variant := mkvariant false true true true.
+(* the search at HEAD (repaired stop rules, pivot by coordinate, last probe at
+   max, overflow-free midpoint) with the plain or the clamped cast; the
+   current source clamps *)
+Definition head_variant_c (cl : bool) : variant := mkvariant false true true true cl.
+Definition head_variant : variant := head_variant_c true.
 
-Definition contract (pts : list (list spec_float)) (ws : list Z) : Prop :=
-  Forall (fun pt => Forall (fun c => is_finite c = true) pt) (to32 pts) /\ Forall (fun w => 0 <= w) ws.
+Definition contract_c (cl : bool) (pts : list (list spec_float)) (ws : list Z) : Prop :=
+  Forall (fun pt => Forall (fun c => is_finite c = true) pt) (to32c cl pts) /\ Forall (fun w => 0 <= w) ws.
+Definition contract := contract_c false.
 
-Lemma mk_items_wt : forall pts ws i, length pts = length ws -> map wt (mk_items i pts ws) = ws.
+Lemma clamp32_valid x : valid_binary 24 128 x = true -> valid_binary 24 128 (clamp32 x) = true.
+Proof.
+  intros H. unfold clamp32. destruct (flt x f32_min_value); [destruct (flt f32_max_value f32_min_value); reflexivity|].
+  destruct (flt f32_max_value x); [reflexivity|exact H].
+Qed.
+Lemma cast32_valid cl x : valid_binary 24 128 (cast32 cl x) = true.
+Proof. destruct cl; [apply clamp32_valid|]; apply f64_to_f32_valid. Qed.
+
+Lemma mk_items_wt cl : forall pts ws i, length pts = length ws -> map wt (mk_items cl i pts ws) = ws.
 Proof.
   induction pts as [|p t IH]; intros [|w ws] i H; cbn [mk_items map length] in *; try discriminate; try reflexivity.
   f_equal. apply IH. lia.
@@ -58,37 +71,37 @@ Notation BalT tol := (BalTree spec_float flt (tol_test tol)).
 
 (* C04 for the search at HEAD, every schedule and fuel.  box_ok32 is a decidable
    premise evaluated by the run glue on every case *)
-Theorem rcb_split_balanced : forall fuel sched D k tol pts ws p0 p,
-  contract pts ws -> box_ok32 D pts ws = true ->
-  rcb head_variant fuel sched D k tol pts ws p0 = Ok p ->
-  exists t, Permutation t (combine (combine (to32 pts) ws) p) /\ BalT tol D k 0%nat t.
+Theorem rcb_split_balanced_c : forall cl fuel sched D k tol pts ws p0 p,
+  contract_c cl pts ws -> box_ok32c cl D pts ws = true ->
+  rcb (head_variant_c cl) fuel sched D k tol pts ws p0 = Ok p ->
+  exists t, Permutation t (combine (combine (to32c cl pts) ws) p) /\ BalT tol D k 0%nat t.
 Proof.
-  intros fuel sched D k tol pts ws p0 p [Hfin Hnn] Hbox H. destruct mid_spec32 as [Hmf Hme]. unfold rcb in H.
+  intros cl fuel sched D k tol pts ws p0 p [Hfin Hnn] Hbox H. destruct mid_spec32 as [Hmf Hme]. unfold rcb in H.
   destruct (Nat.eqb (length ws) (length p0)) eqn:E1; cbn [negb] in H; [|discriminate].
   destruct (Nat.eqb (length pts) (length p0)) eqn:E2; cbn [negb] in H; [|discriminate].
   apply Nat.eqb_eq in E1, E2.
   destruct pts as [|pt0 pts'].
   - inversion H; subst. exists []. split; [constructor|]. apply bal_leaf. intros x y [].
   - cbv iota in H. set (pts := pt0 :: pts') in *.
-    unfold box_ok32 in Hbox.
-    destruct (bbox32 D 0 pts) as [bb|]; [|discriminate].
+    unfold box_ok32c in Hbox. cbn [v_clamp head_variant_c] in H.
+    destruct (bbox32 cl D 0 pts) as [bb|]; [|discriminate].
     assert (Hlen : length pts = length ws) by lia.
-    cbn [v_safe_mid v_old v_by_coord v_probe_max head_variant] in H.
+    cbn [v_safe_mid v_old v_by_coord v_probe_max head_variant_c] in H.
     pose proof (rcb_core_balanced spec_float flt fle (f32_mid true) f32_sub f32_add f32_zero f32_inf
                   (tol_test tol) f32v f32_fin flt_irrefl flt_negtrans flt_trans fle_flt
                   inf_valid32 fin_valid32 fin_inf32 Hmf Hme
-                  fuel sched D k (mk_items 0%N pts ws) (sumZ ws) bb p0 p) as T.
-    rewrite (mk_items_co pts ws 0%N Hlen), (mk_items_wt pts ws 0%N Hlen) in T. apply T.
+                  fuel sched D k (mk_items cl 0%N pts ws) (sumZ ws) bb p0 p) as T.
+    rewrite (mk_items_co cl pts ws 0%N Hlen), (mk_items_wt cl pts ws 0%N Hlen) in T. apply T.
     + rewrite Forall_forall. intros it Hit. unfold fitem. split.
-      * assert (Hc : In (co it) (to32 pts)) by (rewrite <- (mk_items_co pts ws 0%N Hlen); apply in_map, Hit).
+      * assert (Hc : In (co it) (to32c cl pts)) by (rewrite <- (mk_items_co cl pts ws 0%N Hlen); apply in_map, Hit).
         rewrite Forall_forall in Hfin. specialize (Hfin _ Hc). rewrite Forall_forall in *. intros c Hcc.
         unfold f32_fin. rewrite (Hfin c Hcc), andb_true_r.
-        unfold to32 in Hc. apply in_map_iff in Hc. destruct Hc as (p64 & Ep & _). rewrite <- Ep in Hcc.
-        apply in_map_iff in Hcc. destruct Hcc as (c64 & Ec & _). rewrite <- Ec. apply f64_to_f32_valid.
-      * assert (Hw : In (wt it) ws) by (rewrite <- (mk_items_wt pts ws 0%N Hlen); apply in_map, Hit).
+        unfold to32c in Hc. apply in_map_iff in Hc. destruct Hc as (p64 & Ep & _). rewrite <- Ep in Hcc.
+        apply in_map_iff in Hcc. destruct Hcc as (c64 & Ec & _). rewrite <- Ec. apply cast32_valid.
+      * assert (Hw : In (wt it) ws) by (rewrite <- (mk_items_wt cl pts ws 0%N Hlen); apply in_map, Hit).
         rewrite Forall_forall in Hnn. exact (Hnn _ Hw).
     + intros a mn mx Hn. exact (box_ok_sound bb 0%nat _ Hbox a mn mx Hn).
-    + unfold tw. rewrite (mk_items_wt pts ws 0%N Hlen). reflexivity.
+    + unfold tw. rewrite (mk_items_wt cl pts ws 0%N Hlen). reflexivity.
     + rewrite mk_items_ix by exact Hlen. rewrite E2. reflexivity.
     + unfold pts. destruct ws; [cbn in Hlen; discriminate|]. cbn. discriminate.
     + exact H.
@@ -98,12 +111,12 @@ Qed.
 Theorem check_balance32_sound : forall D k tol pts ws ids,
   check_balance32 D k tol pts ws ids = true ->
   length pts = length ids /\ length ws = length ids
-  /\ exists t, Permutation t (combine (combine (to32 pts) ws) ids) /\ BalT tol D k 0%nat t.
+  /\ exists t, Permutation t (combine (combine (to32c true pts) ws) ids) /\ BalT tol D k 0%nat t.
 Proof.
   intros D k tol pts ws ids H. unfold check_balance32 in H.
   destruct (check_balance_sound spec_float flt (tol_test tol) f32v flt_irrefl flt_negtrans flt_trans D k _ _ _ H)
     as (A & B & Cc).
-  unfold to32. rewrite map_length in A. auto.
+  fold (to32c true pts) in *. unfold to32c in A. rewrite map_length in A. auto.
 Qed.
 
 (* the node test decides the balance predicate *)
@@ -123,10 +136,41 @@ Proof.
 Qed.
 
 (* C04 on the narrow contract, without the decidable premise *)
-From Coupe Require Import Proofs.RcbBox.
 
 Definition contract_range (pts : list (list spec_float)) (ws : list Z) : Prop :=
   coords_in_f32_range pts /\ Forall (fun w => 0 <= w) ws.
+
+(* on coordinates with finite images the clamp is the identity *)
+Lemma to32c_in_range cl pts : coords_in_f32_range pts -> to32c cl pts = to32 pts.
+Proof.
+  intros Hr. destruct cl; [|reflexivity]. unfold to32c, to32. apply map_ext_in. intros p Hp. apply map_ext_in. intros c Hc.
+  unfold coords_in_f32_range in Hr. rewrite Forall_forall in Hr. specialize (Hr p Hp). rewrite Forall_forall in Hr.
+  destruct (Hr c Hc) as (_ & _ & F). unfold cast32. apply clamp32_fin_id, to32_fin, F.
+Qed.
+
+Lemma rcb_lengths v fuel sched D k tol pts ws p0 p : rcb v fuel sched D k tol pts ws p0 = Ok p ->
+  length ws = length p0 /\ length pts = length p0.
+Proof.
+  unfold rcb. intros H. destruct (Nat.eqb (length ws) (length p0)) eqn:E1; cbn [negb] in H; [|discriminate].
+  destruct (Nat.eqb (length pts) (length p0)) eqn:E2; cbn [negb] in H; [|discriminate].
+  apply Nat.eqb_eq in E1, E2. auto.
+Qed.
+
+(* every finite f64 coordinate set, with the clamped cast (the current source) *)
+Theorem rcb_split_balanced_finite_f64 : forall fuel sched D k tol pts ws p0 p,
+  Forall (fun pt => length pt = D) pts -> coords_finite_valid64 pts -> Forall (fun w => 0 <= w) ws ->
+  rcb head_variant fuel sched D k tol pts ws p0 = Ok p ->
+  exists t, Permutation t (combine (combine (to32c true pts) ws) p) /\ BalT tol D k 0%nat t.
+Proof.
+  intros fuel sched D k tol pts ws p0 p Hshape Hf Hnn H.
+  destruct (rcb_lengths _ _ _ _ _ _ _ _ _ _ H) as [E1 E2].
+  apply (rcb_split_balanced_c true fuel sched D k tol pts ws p0 p); [| |exact H].
+  - split; [|exact Hnn]. unfold to32c. unfold coords_finite_valid64 in Hf. rewrite Forall_forall in *. intros q Hq.
+    apply in_map_iff in Hq. destruct Hq as (p64 & <- & Hp). specialize (Hf p64 Hp).
+    rewrite Forall_forall in *. intros y Hy. apply in_map_iff in Hy. destruct Hy as (c & <- & Hc).
+    destruct (cast_true_real c (proj2 (Hf c Hc))) as [G _]. unfold f32_fin in G. apply andb_true_iff in G. exact (proj2 G).
+  - apply box_ok32c_true_holds; [lia|exact Hshape|exact Hf].
+Qed.
 
 Theorem rcb_split_balanced_contract : forall fuel sched D k tol pts ws p0 p,
   Forall (fun pt => length pt = D) pts -> contract_range pts ws ->
@@ -134,18 +178,8 @@ Theorem rcb_split_balanced_contract : forall fuel sched D k tol pts ws p0 p,
   exists t, Permutation t (combine (combine (to32 pts) ws) p) /\ BalT tol D k 0%nat t.
 Proof.
   intros fuel sched D k tol pts ws p0 p Hshape [Hr Hnn] H.
-  assert (Hc : contract pts ws).
-  { split; [|exact Hnn]. unfold coords_in_f32_range, to32 in *. rewrite Forall_forall in *. intros p32 Hp.
-    apply in_map_iff in Hp. destruct Hp as (q & <- & Hq). specialize (Hr q Hq).
-    rewrite Forall_forall in *. intros c32 Hcc. apply in_map_iff in Hcc. destruct Hcc as (c & <- & Hcq).
-    exact (proj2 (proj2 (Hr c Hcq))). }
-  destruct pts as [|pt0 pts'] eqn:Ep.
-  - unfold rcb in H. destruct (Nat.eqb (length ws) (length p0)); cbn [negb] in H; [|discriminate].
-    destruct (Nat.eqb (length (@nil (list spec_float))) (length p0)); cbn [negb] in H; [|discriminate].
-    inversion H; subst. exists []. split; [constructor|]. apply bal_leaf. intros x y [].
-  - rewrite <- Ep in *. apply (rcb_split_balanced fuel sched D k tol pts ws p0 p Hc); [|exact H].
-    apply box_ok32_holds; try assumption; [rewrite Ep; discriminate|].
-    unfold rcb in H. destruct (Nat.eqb (length ws) (length p0)) eqn:E1; cbn [negb] in H; [|discriminate].
-    destruct (Nat.eqb (length pts) (length p0)) eqn:E2; cbn [negb] in H; [|discriminate].
-    apply Nat.eqb_eq in E1, E2. lia.
+  rewrite <- (to32c_in_range true pts Hr).
+  apply (rcb_split_balanced_finite_f64 fuel sched D k tol pts ws p0 p Hshape); [|exact Hnn|exact H].
+  unfold coords_in_f32_range, coords_finite_valid64 in *. rewrite Forall_forall in *. intros q Hq. specialize (Hr q Hq).
+  rewrite Forall_forall in *. intros c Hc. destruct (Hr c Hc) as (V & F & _). split; assumption.
 Qed.
